@@ -601,6 +601,221 @@ def gen_rp_tables(outdir):
     emit(outdir, "RpTables.v", text)
 
 
+# --------------------------------------------------------------------------------------------------
+# C12: per-dimension value tables of BOTH halves of the library  ->  Gen/Supports.v
+# --------------------------------------------------------------------------------------------------
+def gen_supports(outdir):
+    """Gen/Supports.v (vocabulary: Lib/InteropTy.v): what the relying-party half can be configured with
+    (`_supports` of the client services and claims classes, client_auth.CLIENT_AUTHN_METHOD, defaults.CC_METHOD,
+    DEFAULT_RESPONSE_MODE, IMPLICIT_RESPONSE_TYPES, default client-authentication methods) and what the provider
+    half accepts (`_supports` of the endpoints and the claims class, client_authn.CLIENT_AUTHN_METHOD, the PKCE
+    add-on's CC_METHOD, DEF_SIGN_ALG), the key family of every signing / key-management algorithm, and two
+    behavioural probes: which artefacts create_authn_response puts into the authorization response for every
+    response type the provider supports (on a real provider), and where StandAloneClient.get_access_and_id_token
+    takes the access token / ID Token from for every response type the relying party supports."""
+    import os
+    import sys
+    sys.path.insert(0, os.path.dirname(os.path.abspath(__file__)))
+    from idpyoidc.client import client_auth as c_auth
+    from idpyoidc.client import defaults as c_def
+    from idpyoidc.client import util as c_util
+    from idpyoidc.client.claims import oidc as c_claims
+    from idpyoidc.client.oidc import access_token as c_at
+    from idpyoidc.client.oidc import authorization as c_az
+    from idpyoidc.client.oidc import userinfo as c_ui
+    from idpyoidc.client.oidc import refresh_access_token as c_rf
+    from idpyoidc.client.oauth2 import introspection as c_intro
+    from idpyoidc.server import client_authn as s_auth
+    from idpyoidc.server.claims import oidc as s_claims
+    from idpyoidc.server.oauth2 import pushed_authorization as s_par
+    from idpyoidc.server.oauth2 import introspection as s_intro
+    from idpyoidc.server.oauth2.add_on import pkce as s_pkce
+    from idpyoidc.server.oidc import authorization as s_az
+    from idpyoidc.server.oidc import token as s_tok
+    from idpyoidc.server.oidc import userinfo as s_ui
+    from idpyoidc.server.token import id_token as s_idt
+    from cryptojwt.jws.utils import alg2keytype as sig_kty
+    from cryptojwt.jwe.utils import alg2keytype as enc_kty
+
+    def strs(v, where):
+        if callable(v):
+            v = v()
+        if not isinstance(v, (list, tuple)) or not all(isinstance(x, str) for x in v):
+            raise Untranslatable("%s is not a list of str: %r" % (where, v))
+        return list(v)
+
+    def sup(cls, key):
+        d = getattr(cls, "_supports", None)
+        if not isinstance(d, dict) or key not in d:
+            raise Untranslatable("%s.%s._supports has no %r" % (cls.__module__, cls.__name__, key))
+        return strs(d[key], "%s._supports[%r]" % (cls.__name__, key))
+
+    def lst(xs):
+        return "[" + "; ".join(coq_str(x) for x in xs) + "]"
+
+    defs = []
+
+    def add(name, ty, body):
+        defs.append("Definition %s : %s := %s." % (name, ty, body))
+
+    # ---- relying party
+    add("rp_response_types", "list pystr", lst(sup(c_az.Authorization, "response_types_supported")))
+    add("rp_response_modes", "list pystr", lst(sup(c_az.Authorization, "response_modes_supported")))
+    drm = c_def.DEFAULT_RESPONSE_MODE
+    if not isinstance(drm, dict) or not all(isinstance(k, str) and isinstance(v, str) for k, v in drm.items()):
+        raise Untranslatable("client DEFAULT_RESPONSE_MODE = %r" % (drm,))
+    add("rp_default_response_mode", "list (pystr * pystr)",
+        "[" + "; ".join("(%s, %s)" % (coq_str(k), coq_str(v)) for k, v in drm.items()) + "]")
+    irt = c_util.IMPLICIT_RESPONSE_TYPES
+    if not isinstance(irt, list) or not all(isinstance(s, set) and all(isinstance(x, str) for x in s) for s in irt):
+        raise Untranslatable("client IMPLICIT_RESPONSE_TYPES = %r" % (irt,))
+    add("rp_implicit_response_types", "list (list pystr)", "[" + "; ".join(lst(sorted(s)) for s in irt) + "]")
+    add("rp_token_auth_methods", "list pystr", lst(sup(c_at.AccessToken, "token_endpoint_auth_methods_supported")))
+    add("rp_token_auth_sig_algs", "list pystr", lst(sup(c_at.AccessToken, "token_endpoint_auth_signing_alg_values_supported")))
+    add("rp_client_authn_methods", "list pystr", lst(strs(list(c_auth.CLIENT_AUTHN_METHOD.keys()), "client CLIENT_AUTHN_METHOD")))
+    for nm, cls in (("rp_token_default_authn", c_at.AccessToken), ("rp_userinfo_default_authn", c_ui.UserInfo),
+                    ("rp_introspection_default_authn", c_intro.Introspection)):
+        v = getattr(cls, "default_authn_method", None)
+        if not isinstance(v, str):
+            raise Untranslatable("%s.default_authn_method = %r" % (cls.__name__, v))
+        add(nm, "pystr", coq_str(v))
+    add("rp_idt_sig_algs", "list pystr", lst(sup(c_claims.Claims, "id_token_signing_alg_values_supported")))
+    add("rp_idt_enc_algs", "list pystr", lst(sup(c_claims.Claims, "id_token_encryption_alg_values_supported")))
+    add("rp_idt_enc_encs", "list pystr", lst(sup(c_claims.Claims, "id_token_encryption_enc_values_supported")))
+    add("rp_ui_sig_algs", "list pystr", lst(sup(c_ui.UserInfo, "userinfo_signing_alg_values_supported")))
+    add("rp_ui_enc_algs", "list pystr", lst(sup(c_ui.UserInfo, "userinfo_encryption_alg_values_supported")))
+    add("rp_ui_enc_encs", "list pystr", lst(sup(c_ui.UserInfo, "userinfo_encryption_enc_values_supported")))
+    add("rp_reqobj_sig_algs", "list pystr", lst(sup(c_az.Authorization, "request_object_signing_alg_values_supported")))
+    if not isinstance(c_def.CC_METHOD, dict):
+        raise Untranslatable("client CC_METHOD is not a dict")
+    add("rp_pkce_methods", "list pystr", lst(strs(list(c_def.CC_METHOD.keys()), "client CC_METHOD")))
+
+    # ---- provider
+    add("op_response_types", "list pystr", lst(sup(s_az.Authorization, "response_types_supported")))
+    add("op_response_modes", "list pystr", lst(sup(s_az.Authorization, "response_modes_supported")))
+    add("op_par_response_types", "list pystr", lst(sup(s_par.PushedAuthorization, "response_types_supported")))
+    add("op_token_auth_methods", "list pystr", lst(sup(s_tok.Token, "token_endpoint_auth_methods_supported")))
+    add("op_token_auth_sig_algs", "list pystr", lst(sup(s_tok.Token, "token_endpoint_auth_signing_alg_values_supported")))
+    add("op_introspection_auth_methods", "list pystr", lst(sup(s_intro.Introspection, "client_authn_method")))
+    add("op_client_authn_methods", "list pystr", lst(strs(list(s_auth.CLIENT_AUTHN_METHOD.keys()), "server CLIENT_AUTHN_METHOD")))
+    add("op_idt_sig_algs", "list pystr", lst(sup(s_claims.Claims, "id_token_signing_alg_values_supported")))
+    add("op_idt_enc_algs", "list pystr", lst(sup(s_claims.Claims, "id_token_encryption_alg_values_supported")))
+    add("op_idt_enc_encs", "list pystr", lst(sup(s_claims.Claims, "id_token_encryption_enc_values_supported")))
+    add("op_ui_sig_algs", "list pystr", lst(sup(s_ui.UserInfo, "userinfo_signing_alg_values_supported")))
+    add("op_ui_enc_algs", "list pystr", lst(sup(s_ui.UserInfo, "userinfo_encryption_alg_values_supported")))
+    add("op_ui_enc_encs", "list pystr", lst(sup(s_ui.UserInfo, "userinfo_encryption_enc_values_supported")))
+    add("op_reqobj_sig_algs", "list pystr", lst(sup(s_az.Authorization, "request_object_signing_alg_values_supported")))
+    add("op_pkce_advertised", "list pystr", lst(sup(s_az.Authorization, "code_challenge_methods_supported")))
+    if not isinstance(s_pkce.CC_METHOD, dict):
+        raise Untranslatable("server CC_METHOD is not a dict")
+    add("op_pkce_methods", "list pystr", lst(strs(list(s_pkce.CC_METHOD.keys()), "server CC_METHOD")))
+    dsa = s_idt.DEF_SIGN_ALG
+    if not isinstance(dsa, dict) or not all(isinstance(k, str) and isinstance(v, str) for k, v in dsa.items()):
+        raise Untranslatable("server DEF_SIGN_ALG = %r" % (dsa,))
+    add("op_def_sign_alg", "list (pystr * pystr)",
+        "[" + "; ".join("(%s, %s)" % (coq_str(k), coq_str(v)) for k, v in dsa.items()) + "]")
+
+    # ---- key family of every algorithm either half names
+    FAM = {"RSA": "KRsa", "EC": "KEc", "OKP": "KOkp", "oct": "KOct"}
+    sig_all, enc_all = [], []
+    for cls, key in ((c_claims.Claims, "id_token_signing_alg_values_supported"), (s_claims.Claims, "id_token_signing_alg_values_supported"),
+                     (c_ui.UserInfo, "userinfo_signing_alg_values_supported"), (s_ui.UserInfo, "userinfo_signing_alg_values_supported")):
+        for a in sup(cls, key):
+            if a not in sig_all:
+                sig_all.append(a)
+    for cls, key in ((c_claims.Claims, "id_token_encryption_alg_values_supported"), (s_claims.Claims, "id_token_encryption_alg_values_supported"),
+                     (c_ui.UserInfo, "userinfo_encryption_alg_values_supported"), (s_ui.UserInfo, "userinfo_encryption_alg_values_supported")):
+        for a in sup(cls, key):
+            if a not in enc_all:
+                enc_all.append(a)
+    rows = []
+    for a in sig_all:
+        k = sig_kty(a)
+        if k not in FAM:
+            raise Untranslatable("signing algorithm %r has key type %r" % (a, k))
+        rows.append("(%s, %s)" % (coq_str(a), FAM[k]))
+    add("sig_alg_family", "list (pystr * keyfam)", "[" + "; ".join(rows) + "]")
+    rows = []
+    for a in enc_all:
+        k = enc_kty(a)
+        if k not in FAM:
+            raise Untranslatable("key-management algorithm %r has key type %r" % (a, k))
+        rows.append("(%s, %s)" % (coq_str(a), FAM[k]))
+    add("enc_alg_family", "list (pystr * keyfam)", "[" + "; ".join(rows) + "]")
+
+    # ---- probe 1: artefacts the provider puts into the authorization response, per response type
+    import srv
+    server = srv.make_server()
+    az = server.get_endpoint("authorization")
+    rows, frows = [], []
+    for rt in sup(s_az.Authorization, "response_types_supported"):
+        req = {"client_id": "client_1", "redirect_uri": "https://client_1.example.com/cb", "scope": "openid",
+               "state": "st", "nonce": "n-0123456789", "response_type": rt}
+        try:
+            pr = az.parse_request(dict(req))
+            if "error" in pr:
+                raise Untranslatable("authorization probe for %r refused: %r" % (rt, pr.to_dict()))
+            r = az.process_request(pr)
+            ra = r["response_args"]
+            if "error" in ra:
+                raise Untranslatable("authorization probe for %r answered %r" % (rt, ra.to_dict()))
+        except Untranslatable:
+            raise
+        except Exception as e:
+            raise Untranslatable("authorization probe for %r raised %r" % (rt, e))
+        got = [k for k in ("code", "access_token", "id_token") if k in ra]
+        rows.append("(%s, %s)" % (coq_str(rt), lst(got)))
+        if not isinstance(r.get("fragment_enc"), bool):
+            raise Untranslatable("authorization probe for %r: fragment_enc = %r" % (rt, r.get("fragment_enc")))
+        frows.append("(%s, %s)" % (coq_str(rt), "true" if r["fragment_enc"] else "false"))
+    add("op_artefacts", "list (pystr * list pystr)", "[" + "; ".join(rows) + "]")
+    add("op_fragment_enc", "list (pystr * bool)", "[" + "; ".join(frows) + "]")
+
+    # ---- probe 2: where the relying party takes access token / ID Token from, per response type
+    from idpyoidc.client.oauth2.stand_alone_client import StandAloneClient
+    from idpyoidc.message.oidc import AuthorizationRequest
+
+    class _CS:
+        def __init__(self, rt):
+            self.rt = rt
+
+        def get_set(self, *a, **kw):
+            return AuthorizationRequest(response_type=self.rt)
+
+    class _Ctx:
+        pass
+
+    class _Probe(StandAloneClient):
+        def __init__(self, rt):      # no configuration needed: only the method below is exercised
+            self._ctx = _Ctx()
+            self._ctx.cstate = _CS(rt)
+
+        def get_context(self):
+            return self._ctx
+
+        def get_tokens(self, state):
+            return {"access_token": "AT-token-endpoint", "__verified_id_token": "IDT-token-endpoint"}
+
+    SRC = {None: "SrcNone", "AT-authz": "SrcAuthz", "IDT-authz": "SrcAuthz",
+           "AT-token-endpoint": "SrcToken", "IDT-token-endpoint": "SrcToken"}
+    rows = []
+    for rt in sup(c_az.Authorization, "response_types_supported"):
+        ar = {"state": "st", "access_token": "AT-authz", "__verified_id_token": "IDT-authz", "code": "c"}
+        try:
+            res = _Probe(rt).get_access_and_id_token(authorization_response=ar, state="st")
+        except Exception as e:
+            raise Untranslatable("get_access_and_id_token probe for %r raised %r" % (rt, e))
+        if not isinstance(res, dict) or res.get("access_token") not in SRC or res.get("id_token") not in SRC:
+            raise Untranslatable("get_access_and_id_token probe for %r returned %r" % (rt, res))
+        rows.append("(%s, (%s, %s))" % (coq_str(rt), SRC[res["access_token"]], SRC[res["id_token"]]))
+    add("rp_artefact_sources", "list (pystr * (src * src))", "[" + "; ".join(rows) + "]")
+
+    text = ("(* GENERATED by harness/gen_tables.py (gen_supports) from the current /repo/src - do not edit. *)\n"
+            "From Coq Require Import String.\nFrom Verif Require Import Lib.Base Lib.InteropTy.\n"
+            "Open Scope string_scope.\n\n" + "\n".join(defs) + "\n")
+    emit(outdir, "Supports.v", text)
+
+
 def main():
     outdir = sys.argv[1]
     os.makedirs(outdir, exist_ok=True)
@@ -610,6 +825,7 @@ def main():
         (gen_pkce_tables, "PkceTables.v"),
         (gen_schema, "Schema.v"),
         (gen_rp_tables, "RpTables.v"),
+        (gen_supports, "Supports.v"),
     ]
     rc = 0
     for fn, fname in GENERATORS:
